@@ -14,6 +14,9 @@ LAEA = {"L1": "+proj=laea +lat_0=52 +lon_0=10 +x_0=0 +y_0=0 +ellps=GRS80 +units=
         "L2": "+proj=laea +lat_0=40 +lon_0=-5 +x_0=0 +y_0=0 +ellps=GRS80 +units=m +no_defs"}
 
 
+AUTH = {"A1": "EPSG:4812", "A2": "ESRI:4812", "A3": "IAU_2015:30165", "A4": "EPSG:30165"}
+
+
 def _crs(tag, warm=False):
     """a NEW CRS object per operand; warm: its lazy EPSG lookup has already happened (as xr_coords / assign_crs do)"""
     from odc.geo.crs import CRS
@@ -34,6 +37,8 @@ def _crs0(tag):
         return None
     if cls in LAEA:
         return CRS(LAEA[cls])
+    if cls in AUTH:
+        return CRS(AUTH[cls])
     code = GEO if cls == "G" else PROJ
     return CRS(f"epsg:{code}") if sp == "epsg" else CRS(pyproj.CRS.from_epsg(code).to_wkt())
 
@@ -59,6 +64,10 @@ def _shape(kind, v):
         return sg.MultiLineString([[(0 + d, 0), (2, 2)], [(0, 2 + d), (2, 0)]])
     if kind == "multipolygon":
         return sg.MultiPolygon([sg.box(0 + d, 0, 1 + d, 1), sg.box(2, 2 + d, 3, 3 + d)])
+    if kind == "multipolygon_overlap":
+        return sg.MultiPolygon([sg.box(0 + d, 0, 2 + d, 2), sg.box(1, 1 + d, 3, 3 + d)])
+    if kind == "multiline_cross":
+        return sg.MultiLineString([[(0 + d, 0), (2 + d, 2)], [(0, 2), (2, 0)]])
     if kind == "collection":
         return sg.GeometryCollection([sg.Point(1 + d, 1), sg.LineString([(0, 0), (2 + d, 2)])])
     raise KeyError(kind)
@@ -254,7 +263,7 @@ def run(ctx):
     ctx.extra["unmodelled_operations"] = unmodelled
     cases.sort(key=lambda c: json.dumps(c, sort_keys=True))
     total = len(cases)
-    cases = ctx.subsample_by(cases, lambda c: (c["op"], c["form"]), 450) if q else cases
+    cases = ctx.subsample_by(cases, lambda c: (c["op"], c["form"], len(c["tags"]), c["tags"][0][1] == "auth"), 400) if q else cases
     events = ctx.pmap(execute, cases)
     bad = [e for e in events if e["odc"]["oc"].startswith("harness_")]
     if bad:
